@@ -1,6 +1,7 @@
 package pool
 
 import (
+	"github.com/vipnode/vipnode/v2/jsonrpc2"
 	"context"
 	"fmt"
 	"strings"
@@ -30,8 +31,17 @@ func VerifC09History() {
 	conns := make([]*VerifHost, nc)
 	live := make([]bool, nc)
 	opened := make([]bool, nc)
+	// with late=1 the connection objects report their own end (as jsonrpc2.Remote does), and a request that
+	// was in flight when its connection ended may reach the pool afterwards: it is refused and changes nothing
+	late := verifapi.Param("late", 0) == 1
+	svcs := make([]jsonrpc2.Service, nc)
 	for i := range conns {
 		conns[i] = &VerifHost{Name: fmt.Sprint("s", i), Addr: fmt.Sprintf("192.0.2.%d:1", i+1), Behaviours: 1}
+		svcs[i] = conns[i]
+		if late {
+			vc := &VerifConn{VerifHost: *conns[i]}
+			conns[i], svcs[i] = &vc.VerifHost, vc
+		}
 		live[i] = true // a connection exists from the moment it is first used until closed
 	}
 	latest := make([]int, nh) // connection the host most recently registered on (-1: never)
@@ -59,13 +69,19 @@ func VerifC09History() {
 		case k < nh*nc: // host h connects on connection c
 			h, c := k/nc, k%nc
 			if !live[c] {
-				verifapi.Assume(false) // a closed socket cannot carry requests
+				if !late || !opened[c] {
+					verifapi.Assume(false) // a closed socket cannot carry new requests
+				}
+				// a request that was in flight when the connection ended
+				_, err := VerifConnectSvc(p, svcs[c], hostID[h], true, "")
+				verifapi.Assert(err != nil, "c09.late-announce-on-ended-connection-refused")
+				break
 			}
 			fs.Arm(-1, "")
 			if faults && verifapi.Bool(fmt.Sprint("storagefault", e)) {
 				fs.Arm(0, "SetNode")
 			}
-			_, err := VerifConnect(p, conns[c], hostID[h], true, "")
+			_, err := VerifConnectSvc(p, svcs[c], hostID[h], true, "")
 			faulted := fs.Failed != ""
 			fs.Disarm()
 			opened[c] = true
@@ -87,7 +103,8 @@ func VerifC09History() {
 				verifapi.Assume(false)
 			}
 			live[c] = false
-			p.CloseRemote(conns[c])
+			conns[c].Closed = true
+			p.CloseRemote(svcs[c])
 		default: // no event
 		}
 		// the registry after every event
@@ -105,7 +122,7 @@ func VerifC09History() {
 			verifapi.Class("connection-registering-two-hosts-left-dangling", true)
 			if can {
 				nLive++
-				verifapi.Assert(ok && reg == conns[latest[h]], "c09.live-latest-connection-is-registered")
+				verifapi.Assert(ok && reg == svcs[latest[h]], "c09.live-latest-connection-is-registered")
 			} else {
 				verifapi.Assert(!ok, "c09.closed-connection-not-registered")
 				// an older connection of this host may still be open: which one counts is ambiguous
